@@ -58,7 +58,7 @@ def mix(rng, n, T=16, C=8, io=4, hi=3, kinds=None, sizes=None, attempts=2):
     return spec
 
 
-def sprinkle(cases, seed, p_bw=0.12, p_log=0.08, p_prior=0.08):
+def sprinkle(cases, seed, p_bw=0.12, p_log=0.08, p_prior=0.08, p_version=0.12):
     """Orthogonal configuration dimensions for end-to-end cases written without them (transfer-manager front-end only): a generous
     bandwidth limit (every body is then wrapped by the limiter, nothing is ever throttled) and the package's loggers at DEBUG with a
     formatting handler, and a client with a history (a legacy S3Transfer / an earlier manager already used on it).  A separate generator
@@ -75,4 +75,10 @@ def sprinkle(cases, seed, p_bw=0.12, p_log=0.08, p_prior=0.08):
             c['debug_log'] = True
         if r.random() < p_prior and 'prior_use' not in c and not c.get('real'):
             c['prior_use'] = r.choice(['legacy', 'manager'])
+        for t in c['transfers']:
+            # an OLDER version of the object is asked for (VersionId in the copy source / in the download's extra arguments)
+            # while the key's current version holds other data
+            if isinstance(t, dict) and t.get('kind') in ('copy', 'download') and 'versioned' not in t and not c.get('real') \
+                    and 'same_dest_as' not in t and r.random() < p_version:
+                t['versioned'] = True
     return cases
